@@ -6,7 +6,7 @@
 #include <string.h>
 #include <unistd.h>
 
-enum { NOTSTARTED, RUNNABLE, BLOCKED, FINISHED };
+enum { NOTSTARTED, RUNNABLE, BLOCKED, FINISHED, UNBORN };
 typedef struct { int state; void* blocked_on; sem_t gate; long npoints; int unlocks; pthread_t handle; int bound; } TH;
 
 static TH th[YV_MAXT];
@@ -16,9 +16,11 @@ static int sched_in[YV_MAXPOINTS], nsched;
 static sem_t controller_gate;
 static uint64_t (*extra_hash)(void);
 static void (*invariant_fn)(const char*);
+static void (*abs_fn)(char*, int);
 static struct { void* m; int owner; } mutexes[8];
 static int nmutexes;
 
+int yv_dynamic_threads;   /* 1: threads other than 0 do not exist until yv_thread_register() */
 YV_POINT yv_log[YV_MAXPOINTS];
 int yv_nlog, yv_deadlock, yv_diverged, yv_active;
 void* yv_installed_handler; void* yv_last_saved_old;
@@ -30,11 +32,14 @@ int yv_unlocks(int tid) { return th[tid].unlocks; }
 int yv_mutex_held(void) { for (int i = 0; i < nmutexes; i++) if (mutexes[i].owner >= 0) return 1; return 0; }
 void yv_sched_set_hash_fn(uint64_t (*fn)(void)) { extra_hash = fn; }
 void yv_sched_set_invariant_fn(void (*fn)(const char*)) { invariant_fn = fn; }
+void yv_sched_set_abs_fn(void (*fn)(char*, int)) { abs_fn = fn; }
+char yv_status_char(int tid) { int s = th[tid].state; return s == UNBORN ? 'U' : s == BLOCKED ? 'B' : s == FINISHED ? 'D' : 'R'; }
+long yv_npoints(int tid) { return th[tid].npoints; }
 
 void yv_sched_reset(int nthreads, const int* schedule, int ns) {
   nth = nthreads; nsched = ns < YV_MAXPOINTS ? ns : YV_MAXPOINTS;
   for (int i = 0; i < nsched; i++) sched_in[i] = schedule[i];
-  for (int i = 0; i < YV_MAXT; i++) { th[i].state = NOTSTARTED; th[i].blocked_on = NULL; th[i].npoints = 0; th[i].unlocks = 0; sem_init(&th[i].gate, 0, 0); }
+  for (int i = 0; i < YV_MAXT; i++) { th[i].state = (yv_dynamic_threads && i > 0) ? UNBORN : NOTSTARTED; th[i].blocked_on = NULL; th[i].npoints = 0; th[i].unlocks = 0; sem_init(&th[i].gate, 0, 0); }
   sem_init(&controller_gate, 0, 0);
   nmutexes = 0; yv_nlog = 0; yv_deadlock = 0; yv_diverged = 0; cur = -1; yv_active = 1;
 }
@@ -66,13 +71,13 @@ static int decide(int me, const char* label) {
     if (me >= 0 && (en >> me & 1)) chosen = me;
     else for (int i = 0; i < nth; i++) if (en >> i & 1) { chosen = i; break; }
   }
-  if (yv_nlog < YV_MAXPOINTS) { yv_log[yv_nlog].tid = me; yv_log[yv_nlog].enabled = en; yv_log[yv_nlog].chosen = chosen; yv_log[yv_nlog].label = label; yv_log[yv_nlog].hash = state_hash(); yv_nlog++; }
+  if (yv_nlog < YV_MAXPOINTS) { yv_log[yv_nlog].tid = me; yv_log[yv_nlog].enabled = en; yv_log[yv_nlog].chosen = chosen; yv_log[yv_nlog].label = label; yv_log[yv_nlog].hash = state_hash(); yv_log[yv_nlog].abs[0] = 0; if (abs_fn) abs_fn(yv_log[yv_nlog].abs, (int) sizeof yv_log[yv_nlog].abs); yv_nlog++; }
   return chosen;
 }
 
 static void all_done_or_deadlock(void) {
   int fin = 1;
-  for (int i = 0; i < nth; i++) if (th[i].state != FINISHED) fin = 0;
+  for (int i = 0; i < nth; i++) if (th[i].state != FINISHED && th[i].state != UNBORN) fin = 0;
   if (!fin) yv_deadlock = 1;
   sem_post(&controller_gate);
 }
@@ -101,10 +106,26 @@ void yv_thread_begin(int tid) {
   th[tid].state = RUNNABLE;
 }
 
+void yv_thread_register(int tid) { if (th[tid].state == UNBORN) th[tid].state = NOTSTARTED; }
+
+/* blocks the calling thread until thread tid has finished */
+void yv_join(int tid) {
+  if (!yv_active || my_id < 0) return;
+  int me = my_id;
+  yv_point("join");
+  while (th[tid].state != FINISHED) {
+    th[me].state = BLOCKED; th[me].blocked_on = &th[tid];
+    int next = decide(me, "blocked");
+    if (next < 0) { all_done_or_deadlock(); sem_wait(&th[me].gate); }
+    else handoff(me, next);
+  }
+}
+
 void yv_thread_end(void) {
   if (!yv_active || my_id < 0) { my_id = -1; return; }
   int me = my_id;
   th[me].state = FINISHED;
+  for (int i = 0; i < nth; i++) if (th[i].state == BLOCKED && th[i].blocked_on == &th[me]) { th[i].state = RUNNABLE; th[i].blocked_on = NULL; }
   if (invariant_fn) invariant_fn("thread-end");
   int next = decide(me, "thread-end");
   my_id = -1;
